@@ -7,7 +7,7 @@
    The main statement holds for every class and every input (no domain restriction since the
    empty-string alias was repaired in /repo 7108448). *)
 From Coq Require Import List String Ascii ZArith Bool.
-From Verif Require Import Regex PyK PyK_strat PyK_alias FieldDecl FieldDeclProofs KeyModel KeyImpl KeyProofs KeyDecl.
+From Verif Require Import Regex PyK PyK_strat PyK_alias FieldDecl FieldDeclProofs KeyModel KeyImpl KeyProofs KeyDecl KeyNested.
 From VerifGen Require Import K4 K5.
 Import ListNotations.
 Open Scope string_scope.
@@ -264,6 +264,38 @@ Example C09_nonvacuous_hier :
   /\ nearest_cfg ls = mkCfg [] true true /\ builder_cfg ls = nearest_cfg ls
   /\ keymodel (class_of ls None) [(KeyS "x", 1%Z)] = OInst [("x", Some (KeyS "x", 1%Z))]
   /\ keymodel (class_of ls None) [(KeyS "x_v1", 1%Z); (KeyS "x_v2", 2%Z); (KeyS "y", 3%Z)] = OExtra [KeyS "x_v1"; KeyS "y"].
+Proof. repeat split; vm_compute; reflexivity. Qed.
+
+(* ---- dataclass-typed fields: the value found under the outer key is decoded by the inner class with the
+   inner class's own aliases and options; failures inside surface as InvalidFieldValue of the outer field ---- *)
+Theorem C09_nested : forall c nt tbl d, nimpl c nt tbl d = nkeymodel c nt tbl d.
+Proof. exact nimpl_eq_nkeymodel. Qed.
+Print Assumptions C09_nested.
+
+Theorem C09_nested_inner_options : forall c nt tbl d f k v inner dn,
+  c_fields c = [f] -> extra_keys c d = [] ->
+  field_read c d f = Some (k, v) -> cls_of nt (f_name f) = Some inner -> inner_of tbl v = Some dn ->
+  nkeymodel c nt tbl d
+  = match keymodel inner dn with
+    | OInst vs => NInst [(f_name f, Some (RInner vs))]
+    | _ => NInvalid (f_name f)
+    end.
+Proof. exact nested_uses_inner_options. Qed.
+Print Assumptions C09_nested_inner_options.
+
+(* outer: forbid_extra_keys, n: N read from alias "nn"; inner N: allow_deserialization_not_by_alias, x alias "ix".
+   The inner mapping may use the name x (inner allow) although the outer class does not allow names; an extra key
+   inside is ignored (inner forbid is off) although the outer class forbids extras; an extra key outside is reported *)
+Example C09_nonvacuous_nested :
+  let inner := mkC [mkF "x" (Some "ix") None false] [] true false None in
+  let outer := mkC [mkF "n" (Some "nn") None false] [] false true None in
+  nkeymodel outer [("n", inner)] [[(KeyS "x", 5%Z); (KeyS "junk", 6%Z)]] [(KeyS "nn", 1000%Z)]
+    = NInst [("n", Some (RInner [("x", Some (KeyS "x", 5%Z))]))]
+  /\ nimpl outer [("n", inner)] [[(KeyS "x", 5%Z); (KeyS "junk", 6%Z)]] [(KeyS "nn", 1000%Z)]
+    = NInst [("n", Some (RInner [("x", Some (KeyS "x", 5%Z))]))]
+  /\ nkeymodel outer [("n", inner)] [[(KeyS "x", 5%Z)]] [(KeyS "n", 1000%Z)] = NExtra [KeyS "n"]
+  /\ nkeymodel outer [("n", inner)] [[(KeyS "y", 5%Z)]] [(KeyS "nn", 1000%Z)] = NInvalid "n"
+  /\ nkeymodel outer [("n", inner)] [] [(KeyS "nn", 7%Z)] = NInvalid "n".
 Proof. repeat split; vm_compute; reflexivity. Qed.
 
 (* ---- non-vacuity: a class with all three sources, a shadowed alias (x's alias is the name of y),
